@@ -4,6 +4,9 @@ manifest stays valid while checks are added)."""
 import json, os
 ROOT = os.path.dirname(os.path.abspath(__file__))
 CHECKS = {
+ "C16": dict(level="fault_enumeration", technique="exhaustive join-offset enumeration over one carousel cycle per configuration; bounded-progress oracle (two further full object transfers and FDT emissions computed from Start/Stop events and the independent decoder) at the monitoring writer",
+     text="For 240 (quick) / 720 (thorough) carousel configurations - 5 FEC schemes x in-band/FDT-only FTI and CENC x cenc x 1-5 objects x delay/interval x both publish modes x single/multi-packet and scheme-protected FDT x interleave x multiplexing - a fresh receiver is started at every packet offset of a full cycle and must deliver every object byte-exact by the end of the window the property names. Complete over the join offsets of each built configuration.",
+     note="trusted: Start/Stop events + independent decoder for the window; receiver without object timeout; 1 h FDT duration", ref="DESIGN.md §5 C16"),
  "C15": dict(level="exploration", technique="reference set model of live TOIs checked after every operation over all operation sequences to a depth, wrap-around stress, real-thread stress with call/return event log; wire/FDT comparison through the independent decoder; compile-time Send/Sync assertions (thorough adds TSan and Miri many-seeds)",
      text="All sequences of six operations up to depth 6 (quick) / 8 (thorough) for each of the six TOI widths and eight initial values (incl. 0, max, 2^w, u128::MAX and the random default) run against the real sender with the Live-set model checked after every step and wire/FDT TOIs compared; 70 000-allocation wrap runs with up to 65 530 live handles; 2-8 real threads allocating under a mutex and dropping moved handles without it, judged on a merged call/return log. Complete for the enumerated sequences, sampled schedules for threads.",
      note="trusted: set model, independent decoder, global sequence counter; thread schedules are whatever the OS (and Miri seeds) produce", ref="DESIGN.md §5 C15"),
